@@ -25,6 +25,7 @@ func checkC07(p *Prog, res *Result, tier string) {
 	res.rule("C07-R5", "compaction revision clamp (C09-R2)", 1)
 	res.rule("C07-R9", "compaction ranges: every prefix contributes (Encode(k,0), Encode(upper(k),0)) of the same k, the border list is sorted after the last append, and it is consumed as (borders[i], borders[i+1]) with i += 2", 4)
 	res.rule("C07-R10", "write paths recognise 'the record is gone' on the error of the step that reported it: no classification test looks at an error value already classified otherwise by an enclosing branch (C09-R9)", 8)
+	res.rule("C07-R11", "the marker of a failed compaction delete, which is compared with user keys, is a user key: what is stored into it is the first result of Decode (through parameters), never an engine key", 1)
 	res.rule("C07-R8", "the expiry branch of the compaction scan removes an index record only by compare-and-delete (C17-R3)", 1)
 	res.rule("C07-R7", "the compaction scan covers every record of its interval: partition borders contiguous and realigned to index keys (C13-R5)", 2)
 	res.rule("C07-R6", "every adapter's compare-and-delete compares the stored value / version before deleting (C11-R1); the metrics wrapper forwards deletes unchanged and returns their error (C11-R5)", 6)
@@ -520,6 +521,7 @@ func checkC07(p *Prog, res *Result, tier string) {
 			res.add("C07-R6", o.Rule+" "+o.Construct, o.Status, o.Pos, o.Detail)
 		}
 	}
+	checkSkipMarkerIsUserKey(p, r, res, "C07-R11")
 	// ---- R10: a key stays writable after its records were compacted away (the creator's re-read, C09-R9) ----
 	checkContradictoryClassification(p, res, "C07-R10")
 	// ---- R9: which ranges are walked ----
@@ -605,4 +607,117 @@ func onlyReturned(v ssa.Value) bool {
 		}
 	}
 	return n > 0
+}
+
+// checkSkipMarkerIsUserKey (C07-R11): another dimension rule. The worker remembers the key a delete failed for and later
+// compares user keys with that marker. What it stores there must therefore be a user key (the first result of the
+// coder's Decode, possibly handed down through parameters) and never an engine key (what the iterator yields, what
+// EncodeObjectKey / EncodeRevisionKey return): an engine key never equals a user key, the marker never matches, and
+// after a failed delete of an old version the compaction goes on to remove the tombstone above it - the deleted key
+// comes back.
+func checkSkipMarkerIsUserKey(p *Prog, r *Roles, res *Result, rule string) {
+	sp := p.ssaPkg("pkg/backend/scanner")
+	var classOf func(v ssa.Value, d int) string
+	classOf = func(v ssa.Value, d int) string {
+		v = p.resolveDeep(v)
+		if d > 5 {
+			return "?"
+		}
+		switch x := v.(type) {
+		case *ssa.Const:
+			return "" // nil: no key at all
+		case *ssa.Extract:
+			if c, ok := x.Tuple.(*ssa.Call); ok && r.is(c, r.Decode) && x.Index == 0 {
+				return "user"
+			}
+		case *ssa.Call:
+			if r.is(x, r.EncObj) || r.is(x, r.EncRev) {
+				return "engine"
+			}
+			if x.Common().IsInvoke() && x.Common().Method.Name() == "Key" {
+				return "engine"
+			}
+		case *ssa.Parameter:
+			acts := p.paramActuals(x)
+			cls := ""
+			for _, a := range acts {
+				c := classOf(a, d+1)
+				if c == "" {
+					continue
+				}
+				if cls == "" {
+					cls = c
+				} else if cls != c {
+					return "mixed"
+				}
+			}
+			if cls != "" {
+				return cls
+			}
+		case *ssa.Phi:
+			cls := ""
+			for _, e := range x.Edges {
+				if resolve(e) == ssa.Value(x) {
+					continue
+				}
+				c := classOf(e, d+1)
+				if c == "" {
+					continue
+				}
+				if cls == "" {
+					cls = c
+				} else if cls != c {
+					return "mixed"
+				}
+			}
+			if cls != "" {
+				return cls
+			}
+		}
+		return "?"
+	}
+	// the marker: a []byte field of the worker that a bytes.Compare / Equal in the package compares with something
+	n := 0
+	for _, f := range p.AllFuncs {
+		if f.Pkg != sp || f.Blocks == nil {
+			continue
+		}
+		for _, c := range callsIn(f) {
+			sc := c.Common().StaticCallee()
+			if sc == nil || sc.Pkg == nil || sc.Pkg.Pkg.Path() != "bytes" || (sc.Name() != "Compare" && sc.Name() != "Equal") {
+				continue
+			}
+			for ai, a := range c.Common().Args {
+				ld, ok := resolve(a).(*ssa.UnOp)
+				if !ok || ld.Op != token.MUL {
+					continue
+				}
+				fa, ok := ld.X.(*ssa.FieldAddr)
+				if !ok {
+					continue
+				}
+				fv := fieldOf(fa)
+				other := classOf(c.Common().Args[1-ai], 0)
+				if other != "user" {
+					continue
+				}
+				// fv is compared with user keys: every store into it is a user key
+				for _, st := range p.fields().stores[fv] {
+					n++
+					construct := fmt.Sprintf("%s: value stored into %s (compared with user keys in %s)", funcName(st.Parent()), fv.Name(), funcName(f))
+					switch cl := classOf(st.Val, 0); cl {
+					case "user":
+						res.ok(rule, construct, p.pos(st.Pos()), "a user key (first result of Decode)")
+					case "engine", "mixed":
+						res.bad(rule, construct, p.pos(st.Pos()), "the marker of a failed delete is compared with user keys but is given an engine key (the encoded object key): it never matches, so after a failed delete of an older version the worker goes on to delete the tombstone above it, and the deleted key is served again with its old value")
+					default:
+						res.ok(rule, construct, p.pos(st.Pos()), "provenance not decided (neither a user key nor an engine key by construction)")
+					}
+				}
+			}
+		}
+	}
+	if n == 0 {
+		res.und(rule, "scanner: failed-delete marker", "-", "no field of the scanner package is compared with a decoded user key")
+	}
 }
